@@ -225,7 +225,7 @@ PROPS['C19'] = {
         ('geo', 'c19.rs', r'^c19_k_(point_line_rect_triangle|triangle_map_main|triangle_map_finding_reflection|min_polygon_counts|min_polygon_map|min_polygon_try_map_error_in_hole|min_polygon_try_map_error_in_shell|min_polygon_try_map_ok)$', 'bounded', 'quick'),
         ('geo', 'c19.rs', r'^c19_k_linestring$', 'bounded', 'thorough'),
     ],
-    'twins': {'C19.V.get_min_max': r'^c19_k_point_line_rect_triangle', 'C19.V.bounding_rect_merge': r'^c19_k_point_line_rect_triangle'},
+    'twins': {'C19.V.get_min_max': r'^c19_k_point_line_rect_triangle', 'C19.V.bounding_rect_merge': r'^c19_k_point_line_rect_triangle', 'C19.V.point_map_coords': r'^c19_k_point_line_rect_triangle', 'C19.V.line_map_coords': r'^c19_k_point_line_rect_triangle', 'C19.V.line_map_coords_in_place': r'^c19_k_point_line_rect_triangle', 'C19.V.rect_map_coords': r'^c19_k_point_line_rect_triangle', 'C19.V.linestring_map_coords_in_place': r'^c19_k_linestring'},
     'trusted': ['Verus unit c19_gc: GeometryCollection::iter() twin (yields the members in order), ASSUMED std contract of Iterator::fold for slice::Iter (a chain of accumulators linked by the closure), members own bounding_rect abstract (opaque Geometry enum), bounding_rect_merge contract (proved in c19_minmax); fold closure annotated in place (X10)',
                 'Verus unit c19_map: the mapped function is an arbitrary `impl Fn` known only through call_requires / call_ensures (precondition: total); local twin declarations of MapCoords / MapCoordsInPlace carrying the Copy bounds of the impls (X8), impl-Trait arguments desugared to generic parameters (X11); Line::start_point / end_point twins',
                 'bounded harnesses use concrete pairwise-distinct coordinates for traversal / mapping code (parametric in the coordinate values) and small concrete container sizes',
@@ -353,6 +353,7 @@ PROPS['C12'] = {
     'title': 'Closest and interior points lie on the geometry',
     'level': 'proof',
     'verus': ['c12_closest'],
+    'twins': {'C12.V.best_of_two': r'^c12_k_best_of_two$', 'C12.V.point_closest_point': r'^c12_k_point_and_axis_line$', 'C12.V.line_closest_point': r'^c12_k_point_and_axis_line$'},
     'kani_extra': ['--no-memory-safety-checks', '--no-overflow-checks', '--no-assertion-reach-checks'],
     'kani': [
         ('geo', 'c12.rs', r'^c12_k_(best_of_two|point_and_axis_line)$', 'complete', 'quick'),
